@@ -79,7 +79,11 @@ class RunTaskExecutable(Operation):
         self, ctx: Context, slot: Optional[int]
     ) -> OperationExecutionHandle:
         try:
-            self._output_path.mkdir(parents=True, exist_ok=True)
+            # Versioned outputs must start from a fresh directory (an existing
+            # one would hold files from an earlier, possibly failed, run).
+            self._output_path.mkdir(
+                parents=True, exist_ok=self._version_to_record is None
+            )
 
             env_vars = {
                 **os.environ,
